@@ -306,6 +306,8 @@ def run(m, tier):
     results.append(rr.rule_inline_table(m, "C11.R10"))
     results.append(r11_strict_order(m, blocks))
     results.append(order_rules.lifo_restore_rule(m, "C11.R12"))
+    from rules import reader_interp
+    results.append(reader_interp.comments_rule(m, "C11.R13", tier))
     expl = ("Decides structural clauses of C11: per call site of the block engine the class list tried at every position contains the "
             "comment, include, preprocessor (and, exactly under process_directives, directive) classes; comments are collected before "
             "each opening statement and around every program unit, with both collectors in every round; every reader item and every "
